@@ -70,6 +70,9 @@ func genC12(r *hx.Rand, length int) *hx.Case {
 			ops = append(ops, op12{K: "rf", I: r.Intn(4)}) // start from a savepoint taken earlier (plain restart if none)
 			todo = nil
 		}
+		if r.Chance(1, 25) {
+			ops = append(ops, op12{K: "fw"}) // the next snapshot write fails
+		}
 		if r.Chance(1, 35) {
 			ops = append(ops, op12{K: "ab"})
 			if r.Bool() {
@@ -190,6 +193,9 @@ func genGenerations(r *hx.Rand) *hx.Case {
 			}
 			if r.Chance(1, 10) {
 				ops = append(ops, op12{K: "lr", B: r.Bool()})
+			}
+			if r.Chance(1, 6) {
+				ops = append(ops, op12{K: "fw"})
 			}
 		}
 		if r.Chance(2, 5) {
@@ -314,7 +320,11 @@ func genOverlap(r *hx.Rand) *hx.Case {
 			if r.Chance(2, 3) {
 				idx = i - 1 // newest first: the older writes return late
 			}
-			ops = append(ops, op13{K: "w", I: idx})
+			if r.Chance(1, 6) {
+				ops = append(ops, op13{K: "wf", I: idx})
+			} else {
+				ops = append(ops, op13{K: "w", I: idx})
+			}
 			if r.Chance(1, 3) {
 				ops = append(ops, op13{K: "r", I: r.Intn(2)})
 			}
@@ -352,6 +362,11 @@ func genSchedFor(mode string, r *hx.Rand, length int) *hx.Case {
 			if inflight > 0 {
 				inflight--
 				removes++
+			}
+		case x < 63:
+			ops = append(ops, op13{K: "wf", I: r.Intn(4)}) // a parked write returns an error
+			if inflight > 0 {
+				inflight--
 			}
 		case x < 75:
 			ops = append(ops, op13{K: "r", I: r.Intn(3)})
